@@ -91,6 +91,11 @@ class Ctx:
     def negative_controls(self, module, cfg, corrupted: list, name: str = "corrupted", **kw):
         """Every corrupted trace must be rejected, otherwise the acceptor is vacuous."""
         if not corrupted:
+            if self.violations or self.known_hits:
+                # when (nearly) every trace is rejected there may be no accepted trace left to corrupt;
+                # the violations are the result of the run, the missing control is recorded
+                self.cov["negative_controls"][name] = {"supplied": 0, "rejected": 0}
+                return
             raise MachineryError("no negative controls supplied for %s" % module)
         v = _trace.validate(module, cfg, corrupted, **kw)
         v.pop("_states", None)
